@@ -13,6 +13,7 @@ package main
 import (
 	"bytes"
 	"crypto/sha256"
+	"encoding/binary"
 	"encoding/json"
 	"fmt"
 	"os"
@@ -22,6 +23,8 @@ import (
 	"strconv"
 	"strings"
 	"sync"
+	"sync/atomic"
+	"syscall"
 	"time"
 
 	"verif/sim"
@@ -35,6 +38,7 @@ type Unit struct {
 	Race  bool    // build with -race
 	Share float64 // share of the property's time budget
 	Procs int     // GOMAXPROCS in the child (default 1)
+	MemMB int     // hard address-space limit of the child in MiB (0 = none)
 }
 
 type PropDef struct {
@@ -110,10 +114,11 @@ func build(u Unit, scratch string) string {
 }
 
 type childRes struct {
-	out    *sim.Out
-	stderr string
-	err    error
-	path   string
+	out      *sim.Out
+	stderr   string
+	err      error
+	path     string
+	timedOut bool
 }
 
 func runChild(bin string, sp sim.Spec, timeout time.Duration, extraEnv ...string) childRes {
@@ -133,9 +138,16 @@ func runChild(bin string, sp sim.Spec, timeout time.Duration, extraEnv ...string
 	select {
 	case err = <-done:
 	case <-time.After(timeout):
-		cmd.Process.Kill()
-		<-done
-		return childRes{err: fmt.Errorf("watchdog: child %d of %s exceeded %v", sp.Idx, sp.Sim, timeout), stderr: eb.String()}
+		// ask the Go runtime for the stacks of all goroutines first, so that a
+		// run that does not finish can be attributed to a function
+		cmd.Process.Signal(syscall.SIGQUIT)
+		select {
+		case <-done:
+		case <-time.After(5 * time.Second):
+			cmd.Process.Kill()
+			<-done
+		}
+		return childRes{err: fmt.Errorf("watchdog: child %d of %s exceeded %v", sp.Idx, sp.Sim, timeout), stderr: eb.String(), timedOut: true, path: sp.Out}
 	}
 	res := childRes{stderr: eb.String(), path: sp.Out}
 	ob, rerr := os.ReadFile(sp.Out)
@@ -143,6 +155,7 @@ func runChild(bin string, sp sim.Spec, timeout time.Duration, extraEnv ...string
 		res.err = fmt.Errorf("child %d of %s wrote no result (%v): %v", sp.Idx, sp.Sim, err, tail(eb.String(), 4000))
 		return res
 	}
+	os.Remove(sim.CurFile(sp.Out))
 	var o sim.Out
 	if jerr := json.Unmarshal(ob, &o); jerr != nil {
 		res.err = jerr
@@ -153,6 +166,88 @@ func runChild(bin string, sp sim.Spec, timeout time.Duration, extraEnv ...string
 		res.err = fmt.Errorf("harness trouble in %s: %s", sp.Sim, o.Bug)
 	}
 	return res
+}
+
+// crashSig turns the stderr of a child that died (fatal error of the Go
+// runtime) or had to be stopped (a run that does not finish) into a
+// violation: clause, kind and the innermost gopacket function on the stack.
+func crashSig(stderr string, timedOut bool) (sim.Violation, bool) {
+	where := "unknown"
+	for _, l := range strings.Split(stderr, "\n") {
+		l = strings.TrimSpace(l)
+		if strings.HasPrefix(l, "github.com/gopacket/gopacket") {
+			if i := strings.LastIndex(l, "("); i > 0 {
+				l = l[:i]
+			}
+			where = strings.TrimPrefix(strings.TrimPrefix(l, "github.com/gopacket/gopacket/"), "github.com/gopacket/gopacket.")
+			break
+		}
+	}
+	if timedOut {
+		return sim.Violation{Clause: "no-hang", Kind: "run-does-not-finish", Where: where, Detail: "a single simulated run did not finish within the watchdog time; stacks at the time it was stopped:\n" + tail(stderr, 6000)}, true
+	}
+	i := strings.Index(stderr, "fatal error: ")
+	if i < 0 {
+		return sim.Violation{}, false
+	}
+	msg := stderr[i+len("fatal error: "):]
+	if j := strings.IndexByte(msg, '\n'); j >= 0 {
+		msg = msg[:j]
+	}
+	v := sim.Violation{Clause: "no-crash", Kind: "fatal-error", Where: fmt.Sprintf("%q in %s", msg, where), Detail: headStr(stderr[max(0, i-300):], 5000)}
+	if strings.Contains(msg, "out of memory") || strings.Contains(msg, "cannot allocate") {
+		v.Clause, v.Kind, v.Where = "allocation", "out-of-memory", where
+	}
+	return v, true
+}
+
+// runSingle executes exactly one run (seed, index) in a fresh child and
+// returns what it found; a child that dies or hangs again is turned into a
+// violation by crashSig. ok=false: the crash did not reproduce.
+func runSingle(bin string, base sim.Spec, run int, out string, env []string) (found []sim.Found, ok bool) {
+	sp := base
+	sp.Mode, sp.Idx, sp.Stride, sp.MaxRuns, sp.BudgetMs, sp.MaxShrink = "explore", run, 1, run+1, 0, 40
+	sp.Out = out
+	if sp.RaceLog != "" {
+		sp.RaceLog = out + ".race"
+	}
+	r := runChild(bin, sp, 90*time.Second, env...)
+	if r.err == nil && r.out != nil {
+		return r.out.Found, len(r.out.Found) > 0
+	}
+	if r.out != nil && r.out.Bug != "" {
+		return nil, false
+	}
+	v, is := crashSig(r.stderr, r.timedOut)
+	if !is {
+		return nil, false
+	}
+	return []sim.Found{{Sig: v.Sig(), V: v, Seed: base.Seed, Run: run, Sim: base.Sim, Tier: base.Tier, Race: base.Race, Count: 1, BySeed: true}}, true
+}
+
+// attribute handles a child that died or hung: the run in progress is read
+// from the child's cur file and re-executed alone; if it fails again (or ends
+// in an ordinary violation) that is the verdict, otherwise it stays trouble.
+func attribute(bin string, sp sim.Spec, r childRes, env []string) ([]sim.Found, bool) {
+	if _, is := crashSig(r.stderr, r.timedOut); !is {
+		return nil, false
+	}
+	b, err := os.ReadFile(sim.CurFile(sp.Out))
+	if err != nil || len(b) < 8 {
+		return nil, false
+	}
+	cur := binary.LittleEndian.Uint64(b)
+	if cur == 0 {
+		return nil, false
+	}
+	return runSingle(bin, sp, int(cur-1), sp.Out+".attr", env)
+}
+
+func headStr(s string, n int) string {
+	if len(s) > n {
+		return s[:n] + "…"
+	}
+	return s
 }
 
 func tail(s string, n int) string {
@@ -213,6 +308,9 @@ type ReplayFile struct {
 	OrigLen   int           `json:"orig_tape_len"`
 	LogFP     string        `json:"log_fp"`
 	Log       []string      `json:"log"`
+	// BySeed: the run ended the process (fatal error, hang), so no tape could
+	// be recorded; the replay re-executes run number Run of seed Seed
+	BySeed bool `json:"by_seed,omitempty"`
 }
 
 func envInt(name string, def int) int {
@@ -254,6 +352,7 @@ func check(prop, tier string) int {
 	fps := map[uint64]struct{}{}
 	states := map[uint64]struct{}{}
 	trouble := ""
+	var crashed atomic.Int32
 	for _, u := range pd.Units {
 		bin := build(u, scratch)
 		ub := time.Duration(float64(budget)*u.Share*1000) * time.Millisecond
@@ -266,13 +365,20 @@ func check(prop, tier string) int {
 				sp := sim.Spec{Sim: u.Sim, Prop: prop, Mode: "explore", Seed: seed, Idx: i, Stride: workers,
 					BudgetMs: ub.Milliseconds(), Tier: tier, Out: filepath.Join(scratch, fmt.Sprintf("%s-%d.json", u.Name, i)),
 					MaxShrink: envInt("VERIF_MAX_SHRINK", 1500), Race: u.Race, Procs: u.Procs,
-					MaxRuns: envInt("VERIF_MAX_RUNS", 0)}
+					MaxRuns: envInt("VERIF_MAX_RUNS", 0), MemLimitMB: u.MemMB}
 				var env []string
 				if u.Race {
 					sp.RaceLog = sp.Out + ".race"
 					env = append(env, "GORACE=halt_on_error=0 log_path="+sp.RaceLog)
 				}
 				res[i] = runChild(bin, sp, ub+ub/2+120*time.Second, env...)
+				if res[i].err != nil && res[i].out == nil {
+					if found, ok := attribute(bin, sp, res[i], env); ok {
+						// the process is lost, its verdict is not
+						res[i] = childRes{out: &sim.Out{Sim: u.Sim, Found: found, Faults: map[string]int{}, Probes: map[string]int{}}, path: sp.Out}
+						crashed.Add(1)
+					}
+				}
 			}(i)
 		}
 		wg.Wait()
@@ -353,7 +459,7 @@ func check(prop, tier string) int {
 			shrinkRace(&e.f, e.u, prop, tier, scratch)
 		}
 		rf := ReplayFile{Property: prop, Unit: e.u.Name, Sim: e.u.Sim, Race: e.u.Race, Tier: tier, Seed: e.f.Seed, Run: e.f.Run,
-			Signature: e.f.Sig, Violation: e.f.V, Tape: e.f.Tape, OrigLen: e.f.OrigLen, LogFP: e.f.LogFP, Log: e.f.Log}
+			Signature: e.f.Sig, Violation: e.f.V, Tape: e.f.Tape, OrigLen: e.f.OrigLen, LogFP: e.f.LogFP, Log: e.f.Log, BySeed: e.f.BySeed}
 		h := sha256.Sum256([]byte(key))
 		path := filepath.Join(root, "replays", "out", fmt.Sprintf("%s-%x.json", prop, h[:5]))
 		b, _ := json.MarshalIndent(rf, "", " ")
@@ -497,13 +603,20 @@ func replay(path string) int {
 	scratch, _ := os.MkdirTemp("/dev/shm", "verif-replay-")
 	defer os.RemoveAll(scratch)
 	bin := build(u, scratch)
-	sp := sim.Spec{Sim: u.Sim, Prop: rf.Property, Mode: "replay", Tier: rf.Tier, Tape: rf.Tape, Out: filepath.Join(scratch, "r.json"), Race: u.Race, Procs: u.Procs}
+	sp := sim.Spec{Sim: u.Sim, Prop: rf.Property, Mode: "replay", Tier: rf.Tier, Tape: rf.Tape, Out: filepath.Join(scratch, "r.json"), Race: u.Race, Procs: u.Procs, MemLimitMB: u.MemMB}
 	var env []string
 	if u.Race {
 		sp.RaceLog = sp.Out + ".race"
 		env = append(env, "GORACE=halt_on_error=0 log_path="+sp.RaceLog)
 	}
-	r := runChild(bin, sp, 120*time.Second, env...)
+	var r childRes
+	if rf.BySeed {
+		sp.Seed = rf.Seed
+		found, _ := runSingle(bin, sp, rf.Run, sp.Out, env)
+		r.out = &sim.Out{Found: found}
+	} else {
+		r = runChild(bin, sp, 120*time.Second, env...)
+	}
 	if r.err != nil {
 		fmt.Fprintln(os.Stderr, "verif:", r.err, tail(r.stderr, 2000))
 		return 2
